@@ -843,7 +843,7 @@ def run(ctx: lib.Ctx) -> None:
     sessions += swept
     ctx.extra['position_sweep_sessions'] = len(swept)
 
-    cases, meta = [], []
+    cases, meta, meta_obs = [], [], []
     reported = 0
     for cells, kinds in sessions:
         recs, obs, case, bodies = case_for(cells)
@@ -861,6 +861,7 @@ def run(ctx: lib.Ctx) -> None:
                  sample={'cells': texts, 'failed': [r['failed'] for r in recs]})
         cases.append(case)
         meta.append((cells, texts, recs))
+        meta_obs.append(obs)
         if why and reported < 3:
             reported += 1
             ctx.violation('a failing REPL cell changed the session: ' + why,
@@ -890,6 +891,14 @@ def run(ctx: lib.Ctx) -> None:
     ctx.extra['extended_sessions'] = n_ext
     bad = ctx.coq_mismatches('repl', IMPORTS, 'fun x => session_fp Rebind (fst x) (snd x)', 'N.eqb',
                              'list (list minstr) * list cell', 'N', cases, shard=ctx.n(13, 100))
+    # thorough tier: a sample is also compared on the full serialisation (not only its fingerprint)
+    if ctx.thorough and not bad:
+        sample = ctx.rng.sample(range(len(cases)), min(40, len(cases)))
+        full = [(cases[i][0], lib.chex(ser(meta_obs[i]))) for i in sample]
+        bad_full = ctx.coq_mismatches('replfull', IMPORTS, 'fun x => session_ser Rebind (fst x) (snd x)', 'bytes_eqb',
+                                      'list (list minstr) * list cell', 'bytes', full, shard=4)
+        ctx.extra['full_serialisation_cases'] = len(full)
+        bad = [sample[i] for i in bad_full]
     # witnesses of repaired defects (findings/C22.json "fixed") are replayed on every run: failing again = VIOLATION
     for f in ctx.known.get('fixed', []):
         texts = f['witness']['cells']
@@ -971,3 +980,13 @@ def fix_instr(i):
     if op in ('BEGIN', 'RUN'):
         return (op, i[1], i[2])
     return (op,)
+
+
+def replay(ctx, doc) -> bool:
+    """./check C22 --replay file: run the recorded cells on the real Interpreter with and without the failing cells.
+    Returns True when the property fails on them."""
+    texts = doc.get('cells') or []
+    why, recs = oracle([{'text': t} for t in texts], [])
+    print('failed cells:', [i for i, r in enumerate(recs) if r['failed']])
+    print('oracle (B):', why or 'holds on this session')
+    return bool(why)
